@@ -11,6 +11,36 @@ from contracts import common as K
 from contracts import envs as E
 
 ENV = "Cleaner"
+
+# documented step penalty per configuration (the constructor argument, NOT read back from the object: `Cleaner(penalty_per_timestep=p)` must
+# charge p, also for p = 0); configurations not listed use the documented default 0.5
+PENALTY = {"3x4a2p0-c08": 0.0, "3x4a2p025-c08": 0.25}
+_PENALTY_OF = {}
+
+
+def penalty_of(env):
+    return _PENALTY_OF.get(id(env), 0.5)
+
+
+def configs(tier):
+    from jumanji.environments import Cleaner
+    from jumanji.environments.routing.cleaner.generator import RandomGenerator as CGen
+    out = dict(E.configs(ENV, tier))
+
+    def mk(name, p):
+        def thunk():
+            env = Cleaner(CGen(3, 4, 2), time_limit=7, penalty_per_timestep=p)
+            _PENALTY_OF[id(env)] = p
+            _KEEP.append(env)
+            return env
+        return thunk
+    out["3x4a2p0-c08"] = mk("3x4a2p0-c08", 0.0)
+    if tier != "quick":
+        out["3x4a2p025-c08"] = mk("3x4a2p025-c08", 0.25)
+    return out
+
+
+_KEEP = []   # (keeps the environments alive so that id(env) stays unique)
 PROPS = ["C01", "C04", "C05", "C07", "C08", "C09", "C11", "C12"]
 DIRTY, CLEAN, WALL = 0, 1, 2
 MOVES = ((-1, 0), (0, 1), (1, 0), (0, -1))
@@ -65,7 +95,7 @@ def spec_step(env, s, a, T):
     q = jnp.where(ok[:, None], p + mv, p)
     grid = jnp.where(covered(env, q, jnp.ones(A, bool)), jnp.int8(CLEAN), s.grid)
     newly = (s.grid == DIRTY) & (grid == CLEAN)
-    reward = jnp.sum(newly) - env.penalty_per_timestep
+    reward = jnp.sum(newly) - penalty_of(env)
     last = ~ok.all() | ~jnp.any(grid == DIRTY) | (s.step_count + 1 >= T)
     return dict(ok=ok, q=q, grid=grid, reward=reward, last=last, mask=legal(env, grid, q))
 
@@ -74,7 +104,7 @@ def problems(env, cfg, tier):
     state, ts, a0 = E.example(env)
     T0 = jnp.int32(env.time_limit)
     A, R, C = env.num_agents, env.num_rows, env.num_cols
-    pen = env.penalty_per_timestep
+    pen = penalty_of(env)
 
     def req(T, s, a):
         return {**inv(env, s, T), "in_spec": E.in_spec(env, a), "T_positive": T >= 1}
